@@ -198,9 +198,19 @@ class FusionART(BaseART):
 
         """
         self.check_dimensions(X)
-        for k in range(self.n):
-            X_k = X[:, self._channel_indices[k][0] : self._channel_indices[k][1]]
-            self.modules[k].validate_data(X_k)
+        # a module remembers the width of its channel the first time it validates
+        # data; if a later channel rejects the data, forget it again so that a
+        # rejected call leaves no trace
+        remembered = [dict(vars(module)) for module in self.modules]
+        try:
+            for k in range(self.n):
+                X_k = X[:, self._channel_indices[k][0] : self._channel_indices[k][1]]
+                self.modules[k].validate_data(X_k)
+        except Exception:
+            for module, before in zip(self.modules, remembered):
+                for name in set(vars(module)) - set(before):
+                    delattr(module, name)
+            raise
 
     def check_dimensions(self, X: np.ndarray):
         """Ensure that the input data has the correct dimensions.
